@@ -32,18 +32,24 @@ Inductive phase :=
 | Acked        (* the reader has processed the CONNACK (serve.go:57-66) *)
 | Ended.       (* the reader has returned / the transport is closed; nothing is read any more *)
 
-(* c_stored: subBuffer of this client's serve() (serve.go:52, a LOCAL of serve: it lives as long as the
-   connection object): QoS 2 messages received, waiting for their PUBREL. The handler component is
-   what c.handler was when the PUBLISH arrived; /repo does not look at it (used by a wrong variant) *)
-Record client := { c_handler : hval; c_phase : phase; c_stored : list (N * hval) }.
+(* c_store: which inboundStore object this BaseClient uses (client.go: field inbound, a pointer):
+   the QoS 2 messages received and waiting for their PUBREL. It is part of the SESSION state:
+   RetryClient.SetClient gives the new client the store OBJECT of the client it replaces
+   (retryclient.go:278-281 cli.inheritInbound(c.cli)), so all connections of a RetryClient share one
+   store; a client that was never handed to SetClient after another one has its own. *)
+Record client := { c_handler : hval; c_phase : phase; c_store : nat }.
+
+Definition sbuf := list (N * hval).   (* stored message id, with c.handler at PUBLISH time: /repo does
+                                         not look at the latter (used by a wrong variant) *)
 
 Record sys := {
   rc_handler : hval;          (* RetryClient.handler *)
   cur : option nat;           (* RetryClient.cli: index (dial order) of the current BaseClient *)
-  clients : list client       (* every BaseClient dialled so far, by index *)
+  clients : list client;      (* every BaseClient dialled so far, by index *)
+  stores : list sbuf          (* every inboundStore object created so far, by index *)
 }.
 
-Definition init : sys := {| rc_handler := None; cur := None; clients := [] |}.
+Definition init : sys := {| rc_handler := None; cur := None; clients := []; stores := [] |}.
 
 Inductive label :=
 | U_handle (h : hval)          (* RetryClient.Handle(h), at any time *)
@@ -66,11 +72,19 @@ Inductive label :=
 | B_q2_publish (k : nat) (m : N) (dup : bool)
                                (* reader of k processes a QoS 2 PUBLISH (first transmission, or the DUP=1
                                   retransmission a broker sends behind the CONNACK of a resumed session):
-                                  PUBREC, message kept in k's subBuffer; no hand-over yet (serve.go:95-102) *)
-| B_q2_release (k : nat) (m : N).
+                                  PUBREC, message kept in k's inbound store; no hand-over yet (serve.go:95-102) *)
+| B_q2_release (k : nat) (m : N)
                                (* reader of k processes the PUBREL of a stored message m: reads k's handler
-                                  AT THAT MOMENT, hands over, PUBCOMP (serve.go:126-143). Enabled only if m
-                                  is stored on k. [B_inbound] with a QoS 2 message is the two in one step *)
+                                  AT THAT MOMENT, takes m out of the store, hands over, writes PUBCOMP
+                                  (serve.go:126-143). Enabled only if m is in the store k uses — whichever
+                                  connection of the session received the PUBLISH. [B_inbound] with a QoS 2 message is the two in one step *)
+| R_connect_start_clean (k : nat)
+                               (* [R_connect_start] with the CleanSession option: the client's inbound store
+                                  is emptied before the reader starts (connect.go:119-122) *)
+| B_pubrel_unknown (k : nat) (m : N).
+                               (* reader of k processes a PUBREL whose message is NOT in the store (already
+                                  released: a repeated PUBREL; or forgotten by a clean-session connect):
+                                  nothing happens, no hand-over, no PUBCOMP. Enabled only if m is not stored *)
 
 (* what the broker / the handlers can observe: message m, which arrived on connection k, was
    given to handler instance h (Some h) or to nobody (None: QoS 0 discarded, QoS 1/2 acknowledged
@@ -94,18 +108,20 @@ Record impl := {
   i_setclient_clears : bool;     (* SetClient: (wrongly) c.handler = nil *)
   i_lock_through_callback : bool; (* reader: (wrongly) holds BaseClient.mu.RLock while the handler runs *)
   i_q2_dup_not_stored : bool;     (* reader: (wrongly) does not store a QoS 2 PUBLISH that has DUP=1 *)
+  i_q2_store_per_connection : bool; (* (wrongly, /repo before 9cd7f01) SetClient does not pass the inbound
+                                       store on: every connection object starts with an empty one *)
   i_q2_handler_at_publish : bool  (* reader: (wrongly) hands a QoS 2 message to the handler read when the
                                      PUBLISH arrived instead of the one registered at PUBREL time *)
 }.
 
 Definition faithful : impl :=
   {| i_store := StoreAlways; i_forward := true; i_install := InstallAtBegin; i_setclient_clears := false;
-     i_lock_through_callback := false; i_q2_dup_not_stored := false; i_q2_handler_at_publish := false |}.
+     i_lock_through_callback := false; i_q2_dup_not_stored := false; i_q2_store_per_connection := false; i_q2_handler_at_publish := false |}.
 
 (* the wrong implementations the proofs refute *)
 Definition v_base st fw ins cl : impl :=
   {| i_store := st; i_forward := fw; i_install := ins; i_setclient_clears := cl;
-     i_lock_through_callback := false; i_q2_dup_not_stored := false; i_q2_handler_at_publish := false |}.
+     i_lock_through_callback := false; i_q2_dup_not_stored := false; i_q2_store_per_connection := false; i_q2_handler_at_publish := false |}.
 Definition v_no_install := v_base StoreAlways true InstallNever false.
 Definition v_late_install := v_base StoreAlways true InstallAfterReturn false.
 Definition v_first_only := v_base StoreAlways true InstallFirstOnly false.
@@ -115,13 +131,17 @@ Definition v_no_store := v_base StoreNever true InstallAtBegin false.
 Definition v_setclient_clears := v_base StoreAlways true InstallAtBegin true.
 Definition v_lock_through_callback : impl :=
   {| i_store := StoreAlways; i_forward := true; i_install := InstallAtBegin; i_setclient_clears := false;
-     i_lock_through_callback := true; i_q2_dup_not_stored := false; i_q2_handler_at_publish := false |}.
+     i_lock_through_callback := true; i_q2_dup_not_stored := false; i_q2_store_per_connection := false; i_q2_handler_at_publish := false |}.
 Definition v_q2_dup_not_stored : impl :=
   {| i_store := StoreAlways; i_forward := true; i_install := InstallAtBegin; i_setclient_clears := false;
-     i_lock_through_callback := false; i_q2_dup_not_stored := true; i_q2_handler_at_publish := false |}.
+     i_lock_through_callback := false; i_q2_dup_not_stored := true; i_q2_store_per_connection := false; i_q2_handler_at_publish := false |}.
+Definition v_q2_store_per_connection : impl :=
+  {| i_store := StoreAlways; i_forward := true; i_install := InstallAtBegin; i_setclient_clears := false;
+     i_lock_through_callback := false; i_q2_dup_not_stored := false; i_q2_store_per_connection := true;
+     i_q2_handler_at_publish := false |}.
 Definition v_q2_handler_at_publish : impl :=
   {| i_store := StoreAlways; i_forward := true; i_install := InstallAtBegin; i_setclient_clears := false;
-     i_lock_through_callback := false; i_q2_dup_not_stored := false; i_q2_handler_at_publish := true |}.
+     i_lock_through_callback := false; i_q2_dup_not_stored := false; i_q2_store_per_connection := false; i_q2_handler_at_publish := true |}.
 
 (* ---------- helpers ---------- *)
 Fixpoint upd (k : nat) (f : client -> client) (cs : list client) : list client :=
@@ -132,11 +152,13 @@ Fixpoint upd (k : nat) (f : client -> client) (cs : list client) : list client :
   end.
 
 Definition set_handler (h : hval) (c : client) : client :=
-  {| c_handler := h; c_phase := c_phase c; c_stored := c_stored c |}.
+  {| c_handler := h; c_phase := c_phase c; c_store := c_store c |}.
 Definition set_phase (p : phase) (c : client) : client :=
-  {| c_handler := c_handler c; c_phase := p; c_stored := c_stored c |}.
+  {| c_handler := c_handler c; c_phase := p; c_store := c_store c |}.
+Definition set_store (i : nat) (c : client) : client :=
+  {| c_handler := c_handler c; c_phase := c_phase c; c_store := i |}.
 
-(* subBuffer: map[uint16]*Message *)
+(* inboundStore.msgs: map[uint16]*Message *)
 Fixpoint sb_lookup (m : N) (l : list (N * hval)) : option hval :=
   match l with
   | [] => None
@@ -147,10 +169,12 @@ Fixpoint sb_remove (m : N) (l : list (N * hval)) : list (N * hval) :=
   | [] => []
   | (x, h) :: r => if N.eqb x m then sb_remove m r else (x, h) :: sb_remove m r
   end.
-Definition store (m : N) (c : client) : client :=
-  {| c_handler := c_handler c; c_phase := c_phase c; c_stored := (m, c_handler c) :: sb_remove m (c_stored c) |}.
-Definition unstore (m : N) (c : client) : client :=
-  {| c_handler := c_handler c; c_phase := c_phase c; c_stored := sb_remove m (c_stored c) |}.
+Fixpoint upd_st (i : nat) (f : sbuf -> sbuf) (l : list sbuf) : list sbuf :=
+  match l, i with
+  | [], _ => []
+  | x :: r, O => f x :: r
+  | x :: r, S i' => x :: upd_st i' f r
+  end.
 
 Definition is_fresh (p : phase) : bool := match p with Fresh => true | _ => false end.
 Definition is_installed (p : phase) : bool := match p with Installed => true | _ => false end.
@@ -160,7 +184,11 @@ Definition is_ended (p : phase) : bool := match p with Ended => true | _ => fals
 Definition reader_runs (p : phase) : bool := match p with Reading | Acked => true | _ => false end.
 
 Definition with_clients (s : sys) (cs : list client) : sys :=
-  {| rc_handler := rc_handler s; cur := cur s; clients := cs |}.
+  {| rc_handler := rc_handler s; cur := cur s; clients := cs; stores := stores s |}.
+Definition with_stores (s : sys) (st : list sbuf) : sys :=
+  {| rc_handler := rc_handler s; cur := cur s; clients := clients s; stores := st |}.
+(* the content of the store a client uses *)
+Definition store_of (s : sys) (c : client) : sbuf := nth (c_store c) (stores s) [].
 
 (* guarded update of client k: enabled iff k exists and its phase satisfies [en] *)
 Definition on_client (s : sys) (k : nat) (en : phase -> bool) (f : client -> client)
@@ -186,7 +214,7 @@ Definition do_handle (v : impl) (s : sys) (h : hval) : sys :=
              | Some k => if i_forward v then upd k (set_handler h) (clients s) else clients s
              | None => clients s
              end in
-  {| rc_handler := rc'; cur := cur s; clients := cs' |}.
+  {| rc_handler := rc'; cur := cur s; clients := cs'; stores := stores s |}.
 
 Definition is_cur (s : sys) (k : nat) : bool :=
   match cur s with Some k' => Nat.eqb k k' | None => false end.
@@ -196,13 +224,28 @@ Definition step_gen (v : impl) (s : sys) (l : label) : result :=
   match l with
   | U_handle h => Next (do_handle v s h) []
   | R_dial h0 =>
-      Next (with_clients s (clients s ++ [{| c_handler := h0; c_phase := Fresh; c_stored := [] |}])) []
+      (* a new BaseClient; its own (empty) inbound store is created on first use (client.go inboundMessages) *)
+      Next {| rc_handler := rc_handler s; cur := cur s;
+              clients := clients s ++ [{| c_handler := h0; c_phase := Fresh; c_store := length (stores s) |}];
+              stores := stores s ++ [[]] |} []
   | R_set_client k =>
       (* retryclient.go:276-284; contract (retryclient.go:60): the BaseClient must be unconnected *)
       match nth_error (clients s) k with
       | Some c => if is_fresh (c_phase c)
-                  then Next {| rc_handler := if i_setclient_clears v then None else rc_handler s;
-                               cur := Some k; clients := clients s |} []
+                  then
+                    (* retryclient.go:278-281: the new client continues the inbound QoS 2 exchanges of the
+                       one it replaces: it gets that client's store OBJECT *)
+                    let st := match cur s with
+                              | Some j => if Nat.eqb j k || i_q2_store_per_connection v then c_store c
+                                          else match nth_error (clients s) j with
+                                               | Some cj => c_store cj
+                                               | None => c_store c
+                                               end
+                              | None => c_store c
+                              end in
+                    Next {| rc_handler := if i_setclient_clears v then None else rc_handler s;
+                            cur := Some k; clients := upd k (set_store st) (clients s);
+                            stores := stores s |} []
                   else Disabled
       | None => Disabled
       end
@@ -217,7 +260,7 @@ Definition step_gen (v : impl) (s : sys) (l : label) : result :=
               | InstallFirstOnly => if all_fresh (clients s) then rc_handler s else c_handler c
               | InstallAfterReturn | InstallNever => c_handler c
               end in
-          on_client s k is_fresh (fun c => {| c_handler := h' c; c_phase := Installed; c_stored := c_stored c |}) no_events
+          on_client s k is_fresh (fun c => {| c_handler := h' c; c_phase := Installed; c_store := c_store c |}) no_events
       end
   | R_connect_start k => on_client s k is_installed (set_phase Reading) no_events
   | R_connack k => on_client s k is_reading (set_phase Acked) no_events
@@ -248,17 +291,47 @@ Definition step_gen (v : impl) (s : sys) (l : label) : result :=
                           | _ => c
                           end) no_events
   | R_end k => on_client s k (fun p => negb (is_ended p)) (set_phase Ended) no_events
+  | R_connect_start_clean k =>
+      match nth_error (clients s) k with
+      | Some c => if is_installed (c_phase c)
+                  then Next {| rc_handler := rc_handler s; cur := cur s;
+                               clients := upd k (set_phase Reading) (clients s);
+                               stores := upd_st (c_store c) (fun _ => []) (stores s) |} []
+                  else Disabled
+      | None => Disabled
+      end
   | B_q2_publish k m dup =>
-      on_client s k reader_runs (fun c => if i_q2_dup_not_stored v && dup then c else store m c) no_events
+      match nth_error (clients s) k with
+      | Some c =>
+          if reader_runs (c_phase c)
+          then Next (with_stores s (upd_st (c_store c)
+                                           (fun l => if i_q2_dup_not_stored v && dup then l
+                                                     else (m, c_handler c) :: sb_remove m l) (stores s))) []
+          else Disabled
+      | None => Disabled
+      end
+  | B_pubrel_unknown k m =>
+      match nth_error (clients s) k with
+      | Some c =>
+          if reader_runs (c_phase c)
+          then match sb_lookup m (store_of s c) with
+               | None => Next s []
+               | Some _ => Disabled
+               end
+          else Disabled
+      | None => Disabled
+      end
   | B_q2_release k m =>
       match nth_error (clients s) k with
-      | Some c0 =>
-          match sb_lookup m (c_stored c0) with
-          | None => Disabled
-          | Some hp =>
-              on_client s k reader_runs (unstore m)
-                        (fun c => [Deliver k m (if i_q2_handler_at_publish v then hp else c_handler c)])
-          end
+      | Some c =>
+          if reader_runs (c_phase c)
+          then match sb_lookup m (store_of s c) with
+               | None => Disabled
+               | Some hp =>
+                   Next (with_stores s (upd_st (c_store c) (sb_remove m) (stores s)))
+                        [Deliver k m (if i_q2_handler_at_publish v then hp else c_handler c)]
+               end
+          else Disabled
       | None => Disabled
       end
   end.
